@@ -171,6 +171,8 @@ func (t *Teamserver) ListenerRemove(Name string) ([]*Listener, []packager.Packag
 			// drop every retained Add event of this listener: the teamserver's own
 			// announcement and, when an operator asked for the listener, the recorded
 			// request that precedes it (removing only the first match left the announcement)
+			t.EventsMutex.Lock()
+			defer t.EventsMutex.Unlock()
 			var kept = make([]packager.Package, 0, len(t.EventsList))
 			for _, Event := range t.EventsList {
 				if Event.Head.Event == packager.Type.Listener.Type && Event.Body.SubEvent == packager.Type.Listener.Add {
